@@ -4,6 +4,8 @@
 import GfsModel.Sequence
 import GfsSpec.SeqSpec
 import GfsProofs.SplitLemmas
+import GfsGen.Facts
+import GfsModel.ExpectedSrc
 
 namespace Gfs.Props.C03
 open Gfs Gfs.Spec Gfs.Proofs
@@ -32,5 +34,10 @@ theorem C03_roundtrip (st : PadStyle) (dir base rng pad ext : Bytes)
 example : unambig "/a/b/".toList "shot_x".toList "-5-10x2,20".toList "#".toList ".tar.gz".toList = true ∧
     unambig [] "take:".toList [] "%04d".toList ".1x".toList = true ∧
     unambig "rel/".toList "list,".toList "1-3".toList "$F2".toList [] = true := by decide
+
+/-- the declarations of /repo this property's model and specification were written from are,
+    on this run, the ones the model was last aligned with (digest of their comment- and
+    layout-insensitive fingerprints, re-extracted by tools/gofacts) -/
+theorem C03_source : Gfs.Gen.sourceDigestC03 = Gfs.expectedSourceDigestC03 := by decide
 
 end Gfs.Props.C03
